@@ -99,3 +99,71 @@ def identity_thunk(lhs, rhs, what="", budget=90):
     def thunk():
         return res
     return thunk
+
+
+def nonneg_thunk(t, what="", budget=60, samples=40):
+    """obligation thunk: the rational function ``t`` is >= 0 wherever all its symbols are positive.
+
+    Certificate (sufficient): over a common denominator, every coefficient of the numerator has one sign and every
+    coefficient of the denominator has one sign (denominator not the zero polynomial) and the signs agree.  Without a
+    certificate the term is sampled at positive rational points: a negative value refutes (with the point as the
+    counterexample), otherwise the verdict is unknown."""
+    import random
+    import signal
+    import time
+
+    import sympy
+    t0 = time.time()
+
+    class _TimeUp(Exception):
+        pass
+
+    def _alarm(signum, frame):
+        raise _TimeUp()
+    old_handler = None
+    try:
+        try:
+            old_handler = signal.signal(signal.SIGALRM, _alarm)
+            signal.setitimer(signal.ITIMER_REAL, budget)
+        except ValueError:
+            old_handler = None
+        e = to_sympy(t)
+        syms = sorted(e.free_symbols, key=str)
+        num, den = sympy.fraction(sympy.together(e))
+        res = None
+        if syms:
+            pn, pd = sympy.Poly(sympy.expand(num), *syms), sympy.Poly(sympy.expand(den), *syms)
+            cn, cd = pn.coeffs(), pd.coeffs()
+        else:
+            cn, cd = [sympy.nsimplify(num)], [sympy.nsimplify(den)]
+        sn = {sympy.sign(c) for c in cn if c != 0}
+        sd = {sympy.sign(c) for c in cd if c != 0}
+        if len(sd) == 1 and len(sn) <= 1 and (not sn or sn == sd):
+            res = ("proved", f"sympy {sympy.__version__} (sign certificate: {len(cn)} numerator and {len(cd)} denominator coefficients of one sign)",
+                   time.time() - t0, None, what)
+        else:
+            rnd = random.Random(11)
+            for _ in range(samples):
+                point = {x: sympy.Rational(rnd.randint(1, 400), rnd.randint(1, 40)) for x in syms}
+                try:
+                    v = e.subs(point)
+                except ZeroDivisionError:
+                    continue
+                if v.is_number and v.is_finite and v < 0:
+                    res = ("refuted", f"sympy {sympy.__version__}", time.time() - t0, {str(k): str(val) for k, val in point.items()},
+                           f"{what}: negative ({float(v):.6g}) at a positive point")
+                    break
+            if res is None:
+                res = ("unknown", "sympy", time.time() - t0, None, f"{what}: no sign certificate, no negative sample")
+    except _TimeUp:
+        res = ("unknown", "sympy", time.time() - t0, None, f"{what}: no verdict within {budget} s")
+    except Exception as e_:
+        res = ("unknown", "sympy", time.time() - t0, None, f"{type(e_).__name__}: {e_}")
+    finally:
+        if old_handler is not None:
+            signal.setitimer(signal.ITIMER_REAL, 0)
+            signal.signal(signal.SIGALRM, old_handler)
+
+    def thunk():
+        return res
+    return thunk
